@@ -25,19 +25,20 @@ Lemma res_equiv_sym a b : res_equiv a b -> res_equiv b a.
 Proof. destruct a, b; cbn; try discriminate; try congruence; intro H; symmetry; exact H. Qed.
 
 (* ================================================================ memory *)
-(* the one call on which memory departs from the abstract store *)
+(* the one call on which memory departs from the abstract store: a
+   CheckAndSetReference whose old reference has another name than the new one *)
 Definition mem_ok (s : store) (o : sop) : bool :=
   match o with
-  | SBase (OCas n _ on _) => (on =? n) && fm_has n (s_refs s)
+  | SBase (OCas n _ on _) => on =? n
   | _ => true
   end.
 
 Lemma mem_step_spec U s o : mem_ok s o = true -> mem_step U s o = spec_sstep U s o.
 Proof.
   destruct o as [b| | |]; try reflexivity. destruct b; try reflexivity.
-  cbn [mem_ok mem_step spec_sstep st_step]. intro H. apply andb_true_iff in H as [H1 H2].
-  apply N.eqb_eq in H1; subst on. unfold mem_cas, st_cas, fm_has in *.
-  destruct (fm_get n (s_refs s)); [reflexivity|discriminate].
+  cbn [mem_ok mem_step spec_sstep st_step]. intro H1.
+  apply N.eqb_eq in H1; subst on. unfold mem_cas, st_cas.
+  destruct (fm_get n (s_refs s)); reflexivity.
 Qed.
 
 Fixpoint mem_guards (U : universe) (s : store) (ops : list sop) : bool :=
@@ -55,15 +56,18 @@ Proof.
   destruct (spec_sstep U s o) as [s1 x]. cbn [fst] in H2. rewrite (IH s1 H2). reflexivity.
 Qed.
 
-(* the guard is exact: where it fails with old.Name() = ref.Name(), memory
-   stores the reference and the abstract store refuses *)
-Lemma mem_guard_tight U s n v ov :
-  fm_has n (s_refs s) = false ->
-  snd (mem_step U s (SBase (OCas n v n ov))) = ROk
-  /\ snd (spec_sstep U s (SBase (OCas n v n ov))) = RErr ENotFound.
+(* the guard is exact in this sense: with two different names, memory decides
+   on the value stored under the new name and the abstract store on the value
+   stored under the old name, so the answers differ as soon as one matches and
+   the other does not *)
+Lemma mem_guard_tight U s n v on ov cn co :
+  fm_get n (s_refs s) = Some cn -> fm_get on (s_refs s) = Some co ->
+  rv_hash_eqb cn ov = false -> rv_hash_eqb co ov = true ->
+  snd (mem_step U s (SBase (OCas n v on ov))) = RErr EChanged
+  /\ snd (spec_sstep U s (SBase (OCas n v on ov))) = ROk.
 Proof.
-  intro H. cbn [mem_step spec_sstep st_step]. unfold mem_cas, st_cas, fm_has in *.
-  destruct (fm_get n (s_refs s)); [discriminate|]. split; reflexivity.
+  intros H1 H2 H3 H4. cbn [mem_step spec_sstep st_step]. unfold mem_cas, st_cas.
+  rewrite H1, H2, H3, H4. split; reflexivity.
 Qed.
 
 (* ================================================================ filesystem *)
